@@ -217,14 +217,25 @@ func oneCase(b *o4.Bridge, s *scenario, rng *mrand.Rand, arg int) bool {
 			flip(n-32, arg)
 		case "flip_mac":
 			flip(n-16, arg)
-		case "loworder_repr":
-			// Y' := a representative of the low-order point u = 1; mark and MAC recomputed (public keying)
+		case "loworder_repr", "loworder_zeroauth":
+			// Y' := a representative of the low-order point u = 1 (or the representative 0, u = 0); mark and MAC recomputed
+			// (public keying)
 			var one [32]byte
 			one[0] = 1
 			r, ok := ref.PublicToRepresentative(one, byte(rng.Intn(4)))
 			if !ok {
 				w.Emit(vt.Ev{"event": "DriverDead", "why": "no representative for the low-order point"})
 				return false
+			}
+			if s.Mod == "loworder_zeroauth" {
+				if arg%2 == 0 || rng.Intn(2) == 0 {
+					r = [32]byte{}
+					r[31] = byte(rng.Intn(4)) << 6 // the two ignored top bits vary
+				}
+				// the AUTH value an aborted ntor computation leaves in its output: all zero
+				for i := 32; i < 64; i++ {
+					resp[i] = 0
+				}
 			}
 			body := append(append([]byte{}, r[:]...), resp[32:n-32]...)
 			mark := ref.Mark(id.Public, id.NodeID, r)
@@ -538,7 +549,19 @@ func runFresh(s *scenario) {
 			var sc net.Conn
 			go func() { c, err := b.SF.WrapConn(l.B); sc = c; sch <- err }()
 			c, err := dialReal(l.A, b.ID.PublicOnly(), i%2 == 1)
-			serr := <-sch
+			var serr error
+			select {
+			case serr = <-sch:
+			case <-time.After(15 * time.Second):
+				// the server is still waiting (it was sent something it does not accept and discards input until a
+				// deadline that only virtual time brings): end the connection under it
+				l.A.Close()
+				l.B.Close()
+				serr = <-sch
+				if serr == nil {
+					serr = errors.New("server handshake did not return")
+				}
+			}
 			ok := err == nil && serr == nil
 			if ok {
 				msg := []byte(fmt.Sprintf("hello %d", i))
